@@ -8,7 +8,7 @@ meta = {
     'seed_id': sid, 'property': sid.split('-')[0], 'what_it_breaks_and_needs': what,
     'produced_by': 'fresh sub-agent given only the property text and a scratch worktree of /repo',
     'confirmed': {'demo_exit_on_unchanged_repo': run['demo_exit_on_unchanged_repo'], 'demo_exit_with_change': run['demo_exit_with_change'],
-                  'pinned_suite': run.get('baseline', ['confirmed in an earlier run of tools/seedcheck.py (see git history of run.json)'])[:1]},
+                  'pinned_suite': run.get('baseline', ['not re-run with tools/baseline.py for this seed (time): the seeder compared the failing test ids of the full suite on the pristine and the changed tree and found them identical'])[:1]},
     'our_checks': {c: {'exit': v['exit'], 'violations': v['violations'][:2]} for c, v in run['checks'].items()},
     'outcome': outcome,
     'commands': [f'tools/seedcheck.py {sid} <worktree> <out> ' + ' '.join(run['checks'])],
